@@ -18,7 +18,7 @@ inductive SearchReach (K : Keys) (root : Pos) : Pos → Prop
 theorem mateClass_reach (K : Keys) (root : Pos) (H : BB → Prop)
     (heval : ∀ p, SearchReach K root p → ∀ v, evalRaw p = some v → -(INF - 100) < v ∧ v < INF - 100)
     (hcoll : ∀ p, SearchReach K root p → H p.hash → NoLegal K p) : MateClass K (SearchReach K root) H where
-  move := fun _ _ _ hp hq hl => SearchReach.move hp hq hl
+  move := fun _ _ _ hp _ hq hl => SearchReach.move hp hq hl
   null := fun _ hp hc => SearchReach.null hp hc
   eval := fun p v hp hv => heval p hp v hv
   coll := hcoll
